@@ -764,6 +764,12 @@ var lenguardReviewed = map[string]lgReview{
 	"normalizeIForwardTSNStreams|index>=0": {
 		"same argument: stored indices are len() values, hence non-negative",
 		func(c *RuleCtx, in ssa.Instruction) bool { return true }},
+	"chunkIForwardTSN.unmarshal|φoffset": {
+		"running offset: starts at the fixed part (4) and advances one entry (8) per iteration, for streamCount = (len(raw)-4)/8 iterations, after (len(raw)-4) % 8 == 0 was checked: every entry ends at or before len(raw)",
+		func(c *RuleCtx, in ssa.Instruction) bool { return dominatedByDivisibility(in) }},
+	"chunkIForwardTSN.unmarshal|φrest": {
+		"shrinking slice: starts as raw[4:], whose length is a checked multiple of the entry size (8), and drops one entry per iteration while non-empty: it always holds at least one whole entry",
+		func(c *RuleCtx, in ssa.Instruction) bool { return dominatedByDivisibility(in) }},
 	"paramRequestedHMACAlgorithm.unmarshal|φi": {
 		"i advances by 2 from 0 and len(raw) is even (odd lengths are rejected first), so i < len(raw) implies i+2 <= len(raw)",
 		func(c *RuleCtx, in ssa.Instruction) bool {
@@ -776,6 +782,25 @@ var lenguardReviewed = map[string]lgReview{
 				return ok && rem.Op == token.REM && IsConstInt(2)(rem.Y) && IsConstInt(1)(b.Y)
 			})
 		}},
+}
+
+// dominatedByDivisibility: the access is dominated by the "length is a whole number of entries" check
+// (x % K == 0 taken, or x % K != 0 not taken, K a constant > 1).
+func dominatedByDivisibility(in ssa.Instruction) bool {
+	return DominatedByExt(in, func(v ssa.Value, t bool) bool {
+		b, ok := v.(*ssa.BinOp)
+		if !ok || !IsConstInt(0)(b.Y) {
+			return false
+		}
+		rem, ok := unconv(b.X).(*ssa.BinOp)
+		if !ok || rem.Op != token.REM {
+			return false
+		}
+		if k, isK := constInt(rem.Y); !isK || k < 2 {
+			return false
+		}
+		return (b.Op == token.EQL && t) || (b.Op == token.NEQ && !t)
+	})
 }
 
 func runLengthGuards(c *RuleCtx) {
@@ -1062,6 +1087,16 @@ func init() {
 							if !ok {
 								if unconv(ed) == ssa.Value(phi) {
 									continue // unchanged on this path (another counter must move; checked separately)
+								}
+								// a slice used as the counter: it grows by append (loop `for len(s) < n`) or shrinks by
+								// re-slicing from a positive constant (loop `for len(rest) != 0`)
+								if call, isCall := unconv(ed).(*ssa.Call); isCall {
+									if bi, isB := call.Call.Value.(*ssa.Builtin); isB && bi.Name() == "append" && len(call.Call.Args) > 0 && unconv(call.Call.Args[0]) == ssa.Value(phi) {
+										continue
+									}
+								}
+								if sl, isSl := unconv(ed).(*ssa.Slice); isSl && unconv(sl.X) == ssa.Value(phi) && sl.Low != nil && c.lowerBoundOf(sl.Low, 0) >= 1 {
+									continue
 								}
 								// nested φ (e.g. continue paths): accept if it resolves to phi±d forms
 								leaves := phiLeaves(ed)
